@@ -1,7 +1,7 @@
 (* Property C10 (PARTIAL) — theorem statements only, each closed by `exact` and followed by Print Assumptions. *)
 From Coq Require Import List String NArith ZArith Bool Permutation.
-From C10 Require Import Model Sorted Messages Dag GlobalsTable Statement.
-From Gen Require Import Globals SortedSites.
+From C10 Require Import Model Sorted Messages Dag GlobalsTable InstanceTable Statement.
+From Gen Require Import Globals SortedSites InstanceState.
 Import ListNotations.
 
 (* ---- (b) sorted choke points: any two enumerations of the same dict / set give the same bytes ---- *)
@@ -116,6 +116,27 @@ Theorem build_calls_every_reset_entry_point :
   forall r, In r required_reset_calls -> In r build_reset_calls.
 Proof. exact build_calls_resets. Qed.
 Print Assumptions build_calls_every_reset_entry_point.
+
+(* ... and calls them on EVERY path: a reset under an `if`, in a loop / handler / nested def, or after a return does
+   not count (generated list build_reset_calls_unconditional) *)
+Theorem reset_entry_points_called_unconditionally :
+  forall r, In r required_reset_calls -> In r build_reset_calls_unconditional.
+Proof. exact resets_unconditional. Qed.
+Print Assumptions reset_entry_points_called_unconditionally.
+
+(* per-build objects: every container attribute of BuildManager / FindModuleCache / FileSystemCache is classified;
+   for lookup memos the statements that write into them are exactly the reviewed ones *)
+Theorem instance_state_classified_and_memo_writes_reviewed :
+  forall f ws, In (f, ws) instance_fields ->
+    exists c approved, ilookup f instance_classification = Some (c, approved) /\
+                       (c = OrderSensitiveMemo -> ws = approved).
+Proof. exact instance_table. Qed.
+Print Assumptions instance_state_classified_and_memo_writes_reviewed.
+
+(* the owners of that state are created anew for every build *)
+Theorem per_build_objects_created_per_build : forall n b, In (n, b) instance_creators -> b = true.
+Proof. exact creators_table. Qed.
+Print Assumptions per_build_objects_created_per_build.
 
 (* history independence, given that a build reads only globals that are reset or equal in both processes *)
 Theorem history_independent_given_frame :
